@@ -946,6 +946,13 @@ example : PixShows { bpp := 8, bytesPerPixel := 1, width := 16, height := 16, pi
   simp [Nat.mod_one] at hb
   first | exact hb | exact hb.symm
 
+/-- non-vacuity of `SpaceBlank` (for the shipped fonts it is the generated fact in `Gen.C19.fonts`,
+checked above: the harness inspects glyph 0x20 of the compiled font data) -/
+example : SpaceBlank { gw := 8, gh := 16, bpr := 1, data := Array.replicate 4096 0 } := by
+  intro px py _ _
+  simp only [glyphBit, Array.getD_eq_getD_getElem?, Array.getElem?_replicate]
+  split <;> simp
+
 /-- a call log (newest first, as `VT.out` keeps it) executed by the models -/
 def textRun (c : VgaText.Cons) (fb : Array UInt16) (log : List Call) : Option (Array UInt16) :=
   log.foldr (fun call acc => acc.bind fun fb => textApply c fb call) (some fb)
